@@ -1094,12 +1094,12 @@ theorem cell_of_table (hs : CertSpec K l cert) {k f : Nat} {X : TRegion} (hX : t
     quantitative bound (in one of the two orders), constants `alpha`, `kappa` of the certificate. -/
 theorem faces_sound (hs : CertSpec K l cert) {k f k' f' : Nat} {X Y : TRegion} (hX : tableCell l k f = some X)
     (hY : tableCell l k' f' = some Y) (hne : k ≠ k' ∨ f ≠ f') :
-    ∃ c c', c ∈ cert.cells ∧ c' ∈ cert.cells ∧ X = cellReal K c ∧ Y = cellReal K c' ∧ c.region = k ∧ c'.region = k' ∧
-      (k = k' → MeetInSharedFace X Y) ∧ (k ≠ k' → MeetInOuterFaceG (gOf c) X (gOf c') Y) ∧
+    ∃ c c', c ∈ cert.cells ∧ c' ∈ cert.cells ∧ X = cellReal K c ∧ Y = cellReal K c' ∧ (c.region = k ∧ c.fan = f) ∧
+      (c'.region = k' ∧ c'.fan = f') ∧ (k = k' → MeetInSharedFace X Y) ∧ (k ≠ k' → MeetInOuterFaceG (gOf c) X (gOf c') Y) ∧
       (c.kind = 0 → c'.kind = 0 → PairData X Y cert.alpha cert.kappa ∨ PairData Y X cert.alpha cert.kappa) := by
   obtain ⟨c, hc, hck, hcf, rfl⟩ := cell_of_table hs hX
   obtain ⟨c', hc', hck', hcf', rfl⟩ := cell_of_table hs hY
-  refine ⟨c, c', hc, hc', rfl, rfl, hck, hck', ?_⟩
+  refine ⟨c, c', hc, hc', rfl, rfl, ⟨hck, hcf⟩, ⟨hck', hcf'⟩, ?_⟩
   obtain ⟨x, hx, hxc⟩ := List.mem_iff_getElem.mp hc
   obtain ⟨y, hy, hyc⟩ := List.mem_iff_getElem.mp hc'
   have hxy : x ≠ y := by
@@ -1260,7 +1260,7 @@ theorem tnRegions_noQuad (l : RawLayout) : ∀ R ∈ tnRegions l, R.noQuad := by
 
 /-- a region of `tnRegions` with the raw region it comes from -/
 theorem tnRegions_mem {l : RawLayout} {R : Region ℝ} (hR : R ∈ tnRegions l) :
-    ∃ k r, l.regions[k]? = some r ∧
+    ∃ (k : Nat) (r : RawRegion), l.regions[k]? = some r ∧
       ((r.kind = 0 ∧ ∃ a b d, r.pos = [a, b, d] ∧ R = Region.triplet r.ch (p3 a, p3 b, p3 d)) ∨
        (r.kind = 1 ∧ R = Region.ngon r.ch (ngonOf r))) := by
   simp only [tnRegions, List.mem_filterMap] at hR
@@ -1319,19 +1319,23 @@ theorem gchan_cell (hs : CertSpec K l cert) {k f : Nat} {r : RawRegion} {R : Reg
         split at this
         · simpa using this.symm
         · simp at this
-      simp only [Region.gchan, cellReal, gOf, hgch, hlch]
-      rw [← hchlen] at h1 h2
+      have key : ∀ i, i < r'.ch.length → r'.ch[i]? = some (r'.ch.getD i 0) := by
+        intro i hi
+        simp [List.getD_eq_getElem?_getD, List.getElem?_eq_getElem hi]
+      have e1 := key _ (by rw [hchlen]; exact h1)
+      have e2 := key _ (by rw [hchlen]; exact h2)
+      simp only [Region.gchan, cellReal, gOf, hgch, hlch, e1, e2]
       fin_cases a
-      · simp [chanAt, List.getElem?_eq_getElem h1, List.getD_eq_getElem?_getD]
-      · simp [chanAt, List.getElem?_eq_getElem h2, List.getD_eq_getElem?_getD]
-      · simp
+      · rw [if_neg (by decide)]; rfl
+      · rw [if_neg (by decide)]; rfl
+      · rw [if_pos (by decide)]; rfl
 
 /-- **THE TRIPLET AND N-GON REGIONS OF A CHECKED TABLE satisfy every hypothesis of `panner_continuousOn_tri_ngon`** -/
 theorem tnRegions_ok (hs : CertSpec K l cert) :
     (∀ R ∈ tnRegions l, R.tnOk) ∧
     (∀ R ∈ tnRegions l, ∀ R' ∈ tnRegions l, R ≠ R' → ∀ X ∈ R.tcells, ∀ Y ∈ R'.tcells, MeetInOuterFace R X R' Y) := by
   -- the cells of a region are cells of the table
-  have hcells : ∀ R ∈ tnRegions l, ∃ k r, l.regions[k]? = some r ∧
+  have hcells : ∀ R ∈ tnRegions l, ∃ (k : Nat) (r : RawRegion), l.regions[k]? = some r ∧
       ((r.kind = 0 ∧ ∃ a b d, r.pos = [a, b, d] ∧ R = Region.triplet r.ch (p3 a, p3 b, p3 d)) ∨
        (r.kind = 1 ∧ R = Region.ngon r.ch (ngonOf r))) ∧ ∀ X ∈ R.tcells, ∃ f, tableCell l k f = some X := by
     intro R hR
@@ -1348,10 +1352,11 @@ theorem tnRegions_ok (hs : CertSpec K l cert) :
   · intro R hR
     obtain ⟨k, r, hr, hkind, hX⟩ := hcells R hR
     rcases hkind with ⟨k0, a, b, d, hpos, rfl⟩ | ⟨k1, rfl⟩
-    · obtain ⟨f, ht⟩ := hX _ (by simp [Region.tcells])
+    · obtain ⟨f, ht⟩ := hX (r.ch, (p3 a, p3 b, p3 d)) (by simp [Region.tcells])
       obtain ⟨c, hc, _, _, he⟩ := cell_of_table hs ht
       have hcs := hs.cellsOk c hc
-      rw [← he] at hcs
+      show det3 (r.ch, ((p3 a : Vec3 ℝ), p3 b, p3 d)).2 ≠ 0 ∧ TRegion.chOk (r.ch, ((p3 a : Vec3 ℝ), p3 b, p3 d))
+      rw [he]
       exact ⟨hcs.det, hcs.chOk⟩
     · obtain ⟨_, h2, h3, h4, h5, h6, h7⟩ := ngon_table hs hr k1
       exact ⟨h2, h3, h4, h5, h6, h7⟩
@@ -1376,11 +1381,10 @@ theorem tnRegions_ok (hs : CertSpec K l cert) :
         · rfl
     obtain ⟨f, ht⟩ := hXc X hX
     obtain ⟨f', ht'⟩ := hYc Y hY
-    obtain ⟨c, c', hc, hc', rfl, rfl, hck, hck', _, m2, _⟩ := faces_sound hs ht ht' (Or.inl hkk)
-    have hcf : c.fan = f := by
-      obtain ⟨c2, hc2, hck2, hcf2, he⟩ := cell_of_table hs ht
-      sorry
-    sorry
+    obtain ⟨c, c', hc, hc', rfl, rfl, ⟨hck, hcf⟩, ⟨hck', hcf'⟩, _, m2, _⟩ := faces_sound hs ht ht' (Or.inl hkk)
+    show MeetInOuterFaceG (R.gchan (cellReal K c).1) (cellReal K c) (R'.gchan (cellReal K c').1) (cellReal K c')
+    rw [gchan_cell hs hr hc hck hcf hkind, gchan_cell hs hr' hc' hck' hcf' hkind']
+    exact m2 hkk
 
 end Faces
 
